@@ -44,6 +44,8 @@ type vsGen struct {
 	wKind   []int
 	wVar    []int
 	bigOK   bool
+	burst    bool
+	lastKind int
 }
 
 var vsKinds = []command.Kind{
@@ -80,6 +82,9 @@ func vsNewGen(t *simkit.Tape, cfg map[string]any) *vsGen {
 	}
 	g.wVar = []int{[]int{6, 8, 4, 10}[t.Intn(4)], []int{2, 1, 4, 0}[t.Intn(4)], []int{2, 1, 4, 0}[t.Intn(4)]}
 	g.bigOK = t.Chance(1, 3)
+	g.burst = t.Intn(3) != 0
+	g.lastKind = -1
+	cfg["bursts"] = g.burst
 	cfg["w_kind"] = fmt.Sprint(g.wKind)
 	cfg["w_variant"] = fmt.Sprint(g.wVar)
 	cfg["big_payloads"] = g.bigOK
@@ -237,6 +242,12 @@ func (g *vsGen) next(cur state.ClusterState) (command.Command, vsMeta) {
 		}
 		return g.gen(order[g.t.Weighted(ws)], cur)
 	}
+	// bursts: now and then the same kind again, so that commands of one kind
+	// that depend on each other's effect (enable then move an owner, upsert then
+	// update, ...) land next to each other and, in lineages (b)/(c), in one batch
+	if g.burst && g.lastKind >= 2 && vsKinds[g.lastKind] != "verif_repeat" && g.t.Chance(1, 4) {
+		return g.gen(g.lastKind, cur)
+	}
 	w[1] = 1
 	// bias towards kinds that can make progress on what exists
 	hasMove, hasTask, hasProgress := false, len(cur.Tasks) > 0, false
@@ -305,6 +316,7 @@ func (g *vsGen) next(cur state.ClusterState) (command.Command, vsMeta) {
 
 func (g *vsGen) gen(kindIdx int, cur state.ClusterState) (command.Command, vsMeta) {
 	kind := vsKinds[kindIdx]
+	g.lastKind = kindIdx
 	if kind == "verif_repeat" {
 		k := g.t.Intn(len(g.log))
 		m := g.logMeta[k]
@@ -719,7 +731,7 @@ func (g *vsGen) genOpsMCP(cmd *command.Command, meta *vsMeta, cur state.ClusterS
 	if len(active) > 0 && (m.Enabled || g.t.Intn(2) == 1) {
 		m.OwnerNodeID = active[g.t.Intn(len(active))]
 	}
-	if cur.OpsMCP != nil && g.t.Chance(2, 3) {
+	if cur.OpsMCP != nil && g.t.Chance(1, 2) {
 		m.OwnerNodeID = cur.OpsMCP.OwnerNodeID // keep the owner: allowed while enabled
 	}
 	nc := g.t.Intn(3)
